@@ -19,7 +19,8 @@ Application callbacks that RAISE (connsim's optional `raises` flag: always / onl
 of the input space: the implementation logs the exception and continues, so the model side is unchanged and every
 clause above is judged as usual — in particular for the OTHER callbacks that share a datagram with a raising one
 (sessions with bursts of sends per frame, and an enumeration of two/three callbacks in one datagram x raise mode x
-retry modes x acked / timed-out datagram x keep-alive interval below / at the message time-out, both roles)."""
+retry modes x acked / timed-out datagram x keep-alive interval below / above the message time-out, both roles).
+Callbacks that call send() themselves (follow-up messages sent from inside a callback): implementation-only sessions."""
 from harness import lib, netsim, connsim as S
 
 RULE = ("netsim sessions: latency in {0, 1/4, 1/2, 3/4} of the resend interval .. several intervals, loss/dup/reorder grid, "
@@ -224,8 +225,8 @@ def stale_ack_after_wrap(run):
 
 def shared_datagram_cases(run):
     """enumeration: n callbacks in ONE datagram, the k-th one raises (always / only on False / only on True); the
-    datagram is acked, or lost and timed out; the sender's keep-alive (= re-send) interval is the default or equal to the
-    message time-out (no re-send of the retried messages is in flight when the time-out fires); both roles; every
+    datagram is acked, or lost and timed out; the sender's keep-alive (= re-send) interval is the default or twice the
+    message time-out (then no re-send of the retried messages is in flight when the time-out fires); both roles; every
     combination of retry modes of the raising callback's message and of its siblings.  Every clause of the oracle is
     judged for every message — a raising callback must not change what the others see."""
     rng = run.rng
@@ -235,7 +236,7 @@ def shared_datagram_cases(run):
     for who in ("client", "server"):
         for path in ("acked", "timed-out"):
             for rz in (1, 2, 3):
-                for ka in (1536, T):
+                for ka in (1536, 2 * T):
                     for retries in ((0, 0), (0, -1), (-1, 0), (-1, -1), (1, -1, 0), (0, 0, -1)):
                         for k in range(len(retries) - 1):
                             combos.append((who, path, rz, ka, retries, k))
@@ -290,6 +291,65 @@ def shared_datagram_cases(run):
     run.compare("conn_run", cases, impl, mod)
 
 
+def nested_api_sessions(run, rng, n, steps):
+    """send callbacks that call the API themselves (connsim's optional Impl.cb_hook): from inside a callback the
+    application sends a follow-up message (unretried or guaranteed, with its own callback), two levels deep; some of the
+    outer callbacks also raise afterwards.  Implementation only (the follow-up sends are not events of the Conn.v
+    history); every oracle clause is judged for the outer AND the follow-up messages."""
+    for i in range(n):
+        cfg = {"loss": rng.choice([0, 0.2, 0.4]), "dup": rng.choice([0, 0.2]), "reorder": rng.choice([0, 0.3]),
+               "tick": rng.choice([300, 600]), "max_delay": T // 4, "delay": rng.choice([0, 750, 1800]), "healed_delay": 0,
+               "scenario": "send() from inside send callbacks"}
+        label = "n%d" % i
+        net = netsim.Net(run, rng, cfg, mtu=1500)
+        viol = []
+        depth = {}
+        try:
+            net.raising_ids = {"client": set(), "server": set()}
+
+            def make_hook(who):
+                ep = net.ep(who)
+
+                def hook(cbid, ok):
+                    d = depth.get((who, cbid), 0)
+                    if d >= 2 or net.healed and d >= 1:
+                        return
+                    conn = ep.impl.conn
+                    mid = net.next_id
+                    net.next_id += 1
+                    payload = b"%08d|follow-up of %d" % (mid, cbid)
+                    retry = rng.choice([0, -1])
+                    net.sent[who][mid] = {"payload": payload, "retry": retry, "time": net.t, "cb": mid, "len": len(payload),
+                                          "raises": 0, "accepted": conn.status.value == 2, "sent_from_callback_of": cbid}
+                    depth[(who, mid)] = d + 1
+                    conn.send(payload, retry=retry, callback=ep.impl.user_cb(mid))
+                return hook
+            for who in ("client", "server"):
+                net.ep(who).impl.cb_hook = make_hook(who)
+            for k in range(steps):
+                if rng.random() < 0.4:
+                    who = rng.choice(["client", "server"])
+                    for _ in range(rng.choice([1, 2, 3])):
+                        rz = rng.choice([0, 0, 0, 1, 2])
+                        mid = net.send(who, rng.choice([9, 12, 40, 300, 2500]), rng.choice([0, -1]), with_cb=True, raises=rz)
+                        if rz:
+                            net.raising_ids[who].add(mid)
+                net.step()
+            net.healed = True
+            for k in range(int((4 * T + 6 * cfg["delay"]) // cfg["tick"]) + 30):
+                net.step()
+            stats = judge(net, label, cfg, 1500, viol)
+        finally:
+            net.close()
+        for what, case in viol[:3]:
+            run.oracle_violation(what, case, "callbacks")
+        run.count("sessions_with_sends_from_callbacks")
+        run.count("follow_up_sends_from_callbacks", len(depth))
+        run.evaluations += len(net.emitted["client"]) + len(net.emitted["server"])
+        if len(depth) >= 3 and stats["true"] and stats["false"]:
+            run.nt((label, len(depth), stats["true"], stats["false"]))
+
+
 def net_due_callbacks_possible(net, who):
     return True
 
@@ -341,6 +401,7 @@ def run(run):
             if stats["true"] and stats["false"] and lost:
                 run.nt((label, stats["true"], stats["false"]))
         run.compare("conn_run", cases, impl, mod)
+        nested_api_sessions(run, rng, 30 if th else 6, 100 if th else 50)
     finally:
         logging.disable(logging.NOTSET)
     stale_ack_after_wrap(run)
